@@ -64,13 +64,20 @@ impl ToTokens for Project {
     fn to_tokens(&self, tokens: &mut proc_macro2::TokenStream) {
         let variables: Vec<&Ident> = self.variables.iter().collect();
         let body: Vec<&Clause> = self.body.iter().collect();
+        // The body is a closure from the projected values to a goal: it is evaluated for every
+        // state that reaches the project-goal, with the projected names bound to the values the
+        // variables have in that state.
         let output = quote! {{
-            #( let #variables = ::proto_vulcan::lterm::LTerm::projection(::std::clone::Clone::clone(&#variables)); )*
+            #( let #variables = ::std::clone::Clone::clone(&#variables); )*
             ::proto_vulcan::operator::project::Project::new(
                 vec![ #( ::std::clone::Clone::clone(&#variables) ),* ],
-                ::proto_vulcan::GoalCast::cast_into(
-                    ::proto_vulcan::operator::conj::InferredConj::from_conjunctions(&[ #( &[ ::proto_vulcan::GoalCast::cast_into( #body ) ] ),* ])
-                )
+                Box::new(move |__projected__: &[::proto_vulcan::lterm::LTerm<_, _>]| {
+                    let mut __projected__ = __projected__.iter();
+                    #( let #variables = ::std::clone::Clone::clone(__projected__.next().unwrap()); )*
+                    ::proto_vulcan::GoalCast::cast_into(
+                        ::proto_vulcan::operator::conj::InferredConj::from_conjunctions(&[ #( &[ ::proto_vulcan::GoalCast::cast_into( #body ) ] ),* ])
+                    )
+                })
             )
         }};
         output.to_tokens(tokens);
